@@ -232,13 +232,13 @@ def run(ctx):
                 for pairs in ([[0, 1], [2, 3]], [[0, 3], [1, 2]], [[1, 3]]):
                     jobs.append((ctx.repo, "multicontract", D, (4, p), None, pairs))
     by = {}
-    for job, r in zip(jobs, ctx.pmap(worker, jobs)):
+    for job, r in ctx.pairs(worker, jobs):
         cfg = r["cfg"]
         ev.obligation("typing", not r["problems"], tuple(str(v) for v in cfg.values()) if cfg["a"][0] >= 1 or cfg["a"][1] == 1 else None, sample=cfg if ev.obligations % 37 == 0 else None)
         for kind, what, site in r["problems"]:
             by.setdefault((cfg["op"], kind), []).append((what, site, cfg))
     lj = [(ctx.repo, law, D) for law in ("reject", "parity_mod2", "contract_symmetry", "product_commutes") for D in (2, 3)]
-    for job, r in zip(lj, ctx.pmap(law_worker, lj)):
+    for job, r in ctx.pairs(law_worker, lj):
         cfg = r["cfg"]
         ev.obligation("law", not r["problems"], tuple(cfg.values()), sample=cfg if cfg["D"] == 2 else None)
         for kind, what, site in r["problems"]:
